@@ -190,11 +190,14 @@ func runC04(ctx *Ctx) {
 	defer pc.run(ctx)
 	on := newCorr("outputnodes")
 	defer on.run(ctx)
+	mr := newCorr("mediarender")
+	defer mr.run(ctx)
 	ctx.Rep.Rule = "each hiding technique (script, style, head, comment, hidden attribute, display:none, visibility:hidden/collapse, aria-hidden, form controls, noscript, svg, object, unrecognised iframe) in each carrier (top level, paragraph, list item, data-table cell, figure, figcaption, blockquote, bare div) between long retained paragraphs; distinct by structure; non-trivial = the page contains hidden words and retains visible ones"
 	contentRun{id: "C04", n: [2]int{150, 6000}, url: pageURL,
 		corr: func(ctx *Ctx, x *distilled, replay interface{}) {
 			pc.add(ctx, x.D, x.Root, true, replay)
 			addOutputNodesCase(on, x.Src, replay)
+			addMediaRenderCases(mr, ctx.Rep, x.Src, pageURL, replay)
 		},
 		weights: []W{{"para", 30}, {"hidden", 15}, {"script", 12}, {"form", 10}, {"list", 6}, {"datatable", 8}, {"figure", 8}, {"embed", 4}, {"quote", 4}, {"divwrap", 6}, {"links", 3}},
 		extra: func(ctx *Ctx, i int, r *Rng) []string {
@@ -222,6 +225,8 @@ func runC05(ctx *Ctx) {
 	defer tr.run(ctx)
 	dd := newCorr("dedupe")
 	defer dd.run(ctx)
+	mr := newCorr("mediarender")
+	defer mr.run(ctx)
 	ctx.Rep.Rule = "pages whose every element may carry on*, id, class, style, data-* and unknown attributes, over all retained kinds (paragraphs, lists, images, figures+captions, videos, data tables, embeds) and with script/style children inside tables, captions and tweets; distinct by structure; non-trivial = at least one retained element carried a forbidden attribute in the source"
 	contentRun{id: "C05", n: [2]int{300, 12000}, url: pageURL,
 		weights: []W{{"para", 30}, {"heading", 4}, {"list", 8}, {"quote", 4}, {"datatable", 8}, {"figure", 8}, {"img", 8}, {"video", 6}, {"embed", 8}, {"script", 4}, {"divwrap", 6}, {"pre", 2}},
@@ -251,6 +256,7 @@ func runC05(ctx *Ctx) {
 			addOutputNodesCase(on, x.Src, replay)
 			addRenderCases(tr, nil, ctx.Rep, x.Src, pageURL, replay, 6)
 			addDedupeCase(dd, x.Src, replay)
+			addMediaRenderCases(mr, ctx.Rep, x.Src, pageURL, replay)
 		},
 		extra: func(ctx *Ctx, i int, r *Rng) []string {
 			g := newPageGen(r)
@@ -281,6 +287,8 @@ func runC06(ctx *Ctx) {
 	defer tr.run(ctx)
 	dd := newCorr("dedupe")
 	defer dd.run(ctx)
+	mr := newCorr("mediarender")
+	defer mr.run(ctx)
 	for k, us := range urls {
 		u, _ := nurl.Parse(us)
 		cr := contentRun{id: "C06", n: [2]int{120, 4000}, url: u,
@@ -288,6 +296,7 @@ func runC06(ctx *Ctx) {
 				addAbsURLCase(ab, x.Src, u, replay)
 				addRenderCases(tr, nil, ctx.Rep, x.Src, u, replay, 6)
 				addDedupeCase(dd, x.Src, replay)
+				addMediaRenderCases(mr, ctx.Rep, x.Src, u, replay)
 			},
 			weights: []W{{"para", 35}, {"list", 6}, {"datatable", 8}, {"figure", 10}, {"img", 10}, {"video", 8}, {"quote", 4}, {"divwrap", 5}, {"links", 4}},
 			setup:   func(g *PageGen) { g.RelURLs = true; g.DupAttrs = true },
@@ -335,6 +344,8 @@ func runC09(ctx *Ctx) {
 	tr, do := newCorr("textrender"), newCorr("docoutput")
 	defer tr.run(ctx)
 	defer do.run(ctx)
+	mr := newCorr("mediarender")
+	defer mr.run(ctx)
 	contentRun{id: "C09", n: [2]int{300, 12000}, url: pageURL,
 		extra: func(ctx *Ctx, i int, r *Rng) []string {
 			g := newPageGen(r)
@@ -345,6 +356,7 @@ func runC09(ctx *Ctx) {
 			addFiltersCase(fl, ctx.Rep, x.Src, pageURL, true, replay)
 			addFiltersCase(fl, ctx.Rep, x.Src, pageURL, false, replay)
 			addRenderCases(tr, do, ctx.Rep, x.Src, pageURL, replay, 8)
+			addMediaRenderCases(mr, ctx.Rep, x.Src, pageURL, replay)
 		},
 		oracle: func(ctx *Ctx, x *distilled, replay interface{}) bool {
 			for _, l := range strings.Split(x.Res.Text, "\n") {
